@@ -24,7 +24,8 @@ RULE = ("Cells = problem x fault-site family x exception class, enumerated compl
         "the recovery solve.  Oracle: the faulted call returns a FAILED Solution or propagates the injected "
         "exception class; warnings.showwarning (identity) and sys.getrecursionlimit() are as before the call; the "
         "next clean solve equals (1e-9) the solve of a fresh identical problem that never saw a fault.  Non-trivial "
-        "= the fault fired after a cache field was populated or while the warning hook was swapped.")
+        "= the fault fired after a cache field was populated or while the warning hook was swapped."
+        "  Also: a maximise variant of the LP and a 430-term loop-built objective; the body runs in a fresh thread under Python's default recursion limit.")
 BUDGET = {"quick": {"workers": 16, "per_cell": 1}, "thorough": {"workers": 16, "per_cell": 6}}
 ASSUMPTIONS = ["faults are synchronous exceptions at the seams the property names; asynchronous signals inside SciPy's C code are not simulated"]
 MANIFEST = {
